@@ -1,9 +1,9 @@
 CONSTANTS
-  LeafTags = {"T", "S", "U"}
+  LeafTags = {"T", "S"}
   StepTags = {"S", "U"}
   StepItems = {0, 1}
   MaxSelDepth = 2
-  ActNames = {"Remove","Empty","SetVr","Set","SetStr","Replace","PushStr","PushU16","Truncate"}
+  ActNames = {"Remove","Empty","Set","SetStr","PushStr","PushU16","Truncate"}
   Inits = {"empty"}
   MaxLen = 3
   Mode = "bfs"
